@@ -600,6 +600,17 @@ impl World {
                 let idx = self.inject(from, bytes).await;
                 info.insert("inj".into(), json!(idx));
             }
+            "PeerMessage" if inp.get("key").and_then(|x| x.as_str()) == Some("zero") => {
+                // a message sealed under the all-zero key, naming `claim` as its sender: keys nobody ever negotiated with the node
+                let claim = self.parties[self.party(util::s(inp, "claim"))].id;
+                let plain = self.plain_of(&inp["msg"]);
+                let mut z = PeerSession::with_keys([0u8; 16], [0u8; 16]);
+                let pv = match z.encrypt(claim, &plain) { Ok(p) => p, Err(e) => unresolved!(e) };
+                info.insert("n".into(), json!(self.intern.name('m', &pv.nonce)));
+                info.insert("plain".into(), json!(self.intern.name('b', &plain)));
+                let idx = self.inject(self.addr(util::s(inp, "from")), pv.encode(&self.local_id)).await;
+                info.insert("inj".into(), json!(idx));
+            }
             "PeerMessage" => {
                 let pi = self.party(util::s(inp, "party"));
                 let keysel = inp.get("key").and_then(|x| x.as_str()).unwrap_or("cur");
